@@ -114,7 +114,8 @@ def check_frame(case):
         return f"{len(gts)} ground truths, classified: {[n for _, n, _ in seen]}"
     for g, d in zip(gts, case["gts"]):
         name, r = [(n, r) for i, n, r in seen if i == id(g)][0]
-        scale = cfg.get_scale_factor(math.sqrt(d["x"] ** 2 + d["y"] ** 2 + d["z"] ** 2))
+        # the two configured numbers are the footprint scale at 0 m and at 100 m from the ego; in between and beyond, the straight line through them
+        scale = case["s0"] + (case["s100"] - case["s0"]) * math.sqrt(d["x"] ** 2 + d["y"] ** 2 + d["z"] ** 2) / 100.0
         poly = box_poly(d, scale)
         flags = [in_prism(p, poly, d["z"] - d["size"][2] / 2, d["z"] + d["size"][2] / 2) for p in case["points"]]
         if any(f is None for f in flags):
@@ -130,7 +131,7 @@ def check_frame(case):
         for p in cl:
             inside_any = False
             for d in case["gts"]:
-                scale = cfg.get_scale_factor(math.sqrt(d["x"] ** 2 + d["y"] ** 2 + d["z"] ** 2))
+                scale = case["s0"] + (case["s100"] - case["s0"]) * math.sqrt(d["x"] ** 2 + d["y"] ** 2 + d["z"] ** 2) / 100.0
                 f = in_prism(p, box_poly(d, scale), d["z"] - d["size"][2] / 2, d["z"] + d["size"][2] / 2)
                 if f is None:
                     undecided = True
@@ -186,10 +187,15 @@ def search(item, seed):
             return dict(function="crop_pointcloud", input=case, observed=why)
     for _ in range(budget(60)):
         gts = [dict(gen_box(rng), vis=rng.choice([None, "full", "none", "partial"])) for _ in range(rng.randint(0, 3))]
+        for g in gts:
+            if rng.random() < 0.3:      # far objects: beyond the 100 m at which the second scale is specified
+                a = rng.uniform(0, 2 * math.pi)
+                R = rng.uniform(105, 180)
+                g.update(x=round(R * math.cos(a), 2), y=round(R * math.sin(a), 2))
         pts = [p for d in gts for p in points_near(rng, d, rng.randint(0, 6))] or [[50.0, 50.0, 0.0]]
         nondet = [[p for d in gts for p in points_near(rng, d, rng.randint(0, 4))] + [[round(rng.uniform(-40, 40), 2), round(rng.uniform(-40, 40), 2), round(rng.uniform(-1, 1), 2)]
                                                                                         for _ in range(rng.randint(0, 3))] for _ in range(rng.randint(0, 2))]
-        case = dict(gts=gts, points=pts, nondet=nondet, s0=rng.choice([1.0, 1.1]), s100=rng.choice([1.0, 1.5]), min_points=rng.choice([0, 1, 2, 5]))
+        case = dict(gts=gts, points=pts, nondet=nondet, s0=rng.choice([1.0, 1.1, 2.0]), s100=rng.choice([1.0, 1.5, 2.0]), min_points=rng.choice([0, 1, 2, 5]))
         try:
             why = check_frame(case)
         except Exception as ex:
